@@ -27,7 +27,7 @@ ASSUMPTIONS = [
 ]
 PROBES = ["pwlen_1", "pwlen_64", "pwlen_not_dividing_2_20", "pwlen_300", "engine_5", "engine_32", "authpriv",
           "len127_outer_layer", "len128_outer_layer", "len255_outer_layer", "len256_outer_layer", "request_len127_layer",
-          "set_payload"]
+          "set_payload", "usmstats_as_data", "report_ctx_echo"]
 shrink_lists: List[tuple] = []
 OPS = ["get", "get", "set", "multiget", "getnext", "bulkget", "walk"]
 BASE = (1, 3, 6, 1, 2, 1, 7)
@@ -53,9 +53,13 @@ def plan_for(tier: str, seed: int, i: int) -> dict:
         proto.update({"priv": rng.choice(["verifstream", "verifstream2"]),
                       "priv_pass": gen.gen_bytes(rng, rng.choice([pwlen, 8, 1 + (pwlen * 7) % 300]))})
     payload = (i // 2) % 281 if i % 2 == 0 else rng.randrange(0, 281)
-    return {"prop": ID, "proto": proto, "engine_id": b"\x80" + gen.gen_bytes(rng, rng.choice([4, 4, 11, 16, 31, rng.randrange(4, 32)])),
-            "op": rng.choice(OPS), "payload": payload, "pwlen": pwlen,
-            "context_name": gen.gen_bytes(rng, rng.choice([0, 0, 0, 5, 20]))}
+    op = rng.choice(OPS)
+    ctx = gen.gen_bytes(rng, rng.choice([0, 0, 0, 5, 20]))
+    eng = b"\x80" + gen.gen_bytes(rng, rng.choice([4, 4, 11, 16, 31, rng.randrange(4, 32)]))
+    if rng.random() < 0.12:
+        op = rng.choice(["get_usmstat", "walk_usmstats"])   # the agent's own usmStats counters read as ordinary data
+    return {"prop": ID, "proto": proto, "engine_id": eng, "op": op, "payload": payload, "pwlen": pwlen, "context_name": ctx,
+            "ctx_echo": rng.random() < 0.3}
 
 
 def simplify(plan: dict):
@@ -88,14 +92,21 @@ def execute(plan: dict) -> dict:
     level = proto["level"]
     w = World()
     mib = {BASE + (1, 1, 1): ("str", b"P" * plan["payload"]), BASE + (1, 1, 2): ("int", 42), BASE + (1, 2, 1): ("c32", 7)}
-    agent = w.add_agent(agent_for(proto, mib, engine_id=plan["engine_id"], boots=7, time0=4000))
-    client = w.client(proto, timeout=1, retries=1, context_name=plan["context_name"])
     o1, o2, o3 = sorted(mib)
+    usm = (1, 3, 6, 1, 6, 3, 15, 1, 1)
+    if plan["op"] in ("get_usmstat", "walk_usmstats"):
+        for k in range(1, 7):
+            mib[usm + (k, 0)] = ("c32", 10 + k)
+    agent = w.add_agent(agent_for(proto, mib, engine_id=plan["engine_id"], boots=7, time0=4000))
+    agent.report_ctx_echo = bool(plan.get("ctx_echo"))
+    client = w.client(proto, timeout=1, retries=1, context_name=plan["context_name"])
     op = {"get": {"op": "get", "oid": o1}, "multiget": {"op": "multiget", "oids": [o1, o2, o3]},
           "getnext": {"op": "getnext", "oid": BASE + (1, 1)},
           "set": {"op": "set", "oid": o2, "val": ("str", b"S" * plan["payload"])},
           "bulkget": {"op": "bulkget", "scalars": [o2], "repeaters": [BASE + (1,)], "maxrep": 3},
-          "walk": {"op": "walk", "root": BASE + (1, 1)}}[plan["op"]]
+          "walk": {"op": "walk", "root": BASE + (1, 1)},
+          "get_usmstat": {"op": "get", "oid": usm + (1 + plan["payload"] % 6, 0)},
+          "walk_usmstats": {"op": "walk", "root": usm}}[plan["op"]]
     res = exc = None
 
     async def one() -> Any:
@@ -169,6 +180,10 @@ def execute(plan: dict) -> dict:
             want = ("str", b"S" * plan["payload"])
         elif plan["op"] == "walk":
             want = [(o1, mib[o1]), (o2, mib[o2])]
+        elif plan["op"] == "get_usmstat":
+            want = mib[usm + (1 + plan["payload"] % 6, 0)]
+        elif plan["op"] == "walk_usmstats":
+            want = [(usm + (k, 0), mib[usm + (k, 0)]) for k in range(1, 7)]
         if want is not None and res != want:
             fail("wrong-result", "call returned %r, model %r" % (str(res)[:120], str(want)[:120]))
         if plan["op"] == "bulkget" and ok:
@@ -184,6 +199,8 @@ def execute(plan: dict) -> dict:
     probes["engine_32"] = int(len(plan["engine_id"]) == 32)
     probes["authpriv"] = int(level == 3)
     probes["set_payload"] = int(plan["op"] == "set")
+    probes["usmstats_as_data"] = int(plan["op"] in ("get_usmstat", "walk_usmstats"))
+    probes["report_ctx_echo"] = int(bool(plan.get("ctx_echo")))
     counters = dict(w.net.counters)
     for kk, v in probes.items():
         counters["probe_" + kk] = v
